@@ -140,7 +140,12 @@ def gen_row_items(rng, n, rich):
                     items += [("n",), ("s", w, ch)]
         elif r < 0.91:
             w, ch = rng.choice(extended)
-            items.append(("e", rng.choice("AEIOUaeiouc"), w, ch))
+            if rng.random() < 0.2:
+                # the stand-in the extended character replaces is itself a special character (a two-byte code)
+                sw, sch = rng.choice([x for x in specials if x[1].strip()])
+                items.append(("es", sw, sch, w, ch))
+            else:
+                items.append(("e", rng.choice("AEIOUaeiouc "), w, ch))      # also a blank as stand-in
         elif r < 0.95:
             items += [("bs",)] * rng.choice([1, 1, 2])      # also two backspaces in a row (sent single they are two, not one doubled)
         else:
@@ -176,6 +181,9 @@ def row_words(row, doubled):
             elif it[0] == "e":
                 out.extend(chars_to_words(it[1]))
                 out += [it[2]] * (2 if doubled else 1)
+            elif it[0] == "es":
+                out += [it[1]] * (2 if doubled else 1)
+                out += [it[3]] * (2 if doubled else 1)
             elif it[0] == "bs":
                 out += [CMD["BS"]] * (2 if doubled else 1)
             elif it[0] == "mid":
@@ -197,6 +205,8 @@ def row_cells(row):
             cells.append((it[2], italic))
         elif it[0] == "e":
             cells.append((it[3], italic))        # the stand-in is replaced
+        elif it[0] == "es":
+            cells.append((it[4], italic))        # so is a special character used as stand-in
         elif it[0] == "bs":
             if cells:
                 cells.pop()
@@ -232,7 +242,7 @@ def mid_cell_erased_late(row):
     erased first)"""
     cells = []          # True = fresh mid-row cell, False = other cell or a mid-row cell with something written after it
     for it in row["items"]:
-        if it[0] in ("c", "s", "e"):
+        if it[0] in ("c", "s", "e", "es"):
             cells = ["stale" if c != "char" else c for c in cells]
             cells.append("char")
         elif it[0] == "mid":
@@ -286,6 +296,9 @@ def gen_popon(rng, rich=True, ncaps=None, max_len=30):
         pre = [CMD["ENM"]] if rng.random() < 0.8 else []
         words += pre * (2 if doubled else 1)
         words += [CMD["RCL"]] * (2 if doubled else 1)
+        if rich and rng.random() < 0.1:
+            # words the decoder does not know (codes of the second caption channel): nothing is shown, but each takes its frame
+            words += [rng.choice(["1cae", "1c2c", "1c20"]) for _ in range(rng.randint(1, 3))]
         if rich and rows and rng.random() < 0.1:
             # a preamble (plain or italic, or plain followed by the italic mid-row code) that is abandoned before anything
             # is written: the cursor moves on to the first real row, the screen shows nothing of it
@@ -318,7 +331,8 @@ def gen_popon(rng, rich=True, ncaps=None, max_len=30):
             words += ["8080"] * rng.choice([0, 0, 1, 2])
             events.append(("edm", frame + len(words)))
             words += [CMD["EDM"]] * (2 if doubled else 1)
-        lines.append(timecode(frame, df) + "\t" + " ".join(words))
+        # words separated by one blank, now and then by two or by a blank and a tab (empty tokens are not code words)
+        lines.append(timecode(frame, df) + "\t" + (" ".join(words) if rng.random() < 0.85 else rng.choice(["  ", " \t"]).join(words)))
         lines.append("")
         frame += len(words)
         caps.append({"rows": rows, "doubled": doubled})
@@ -402,6 +416,9 @@ def wf_popon(p):
             for it in row["items"]:
                 if not dbl and it[0] in ("s", "e") and prev is not None and prev[0] == it[0] and prev[-2] == it[-2]:
                     return False
+                # a special character right before the same special code used as a stand-in reads as one doubled code
+                if not dbl and it[0] == "es" and prev is not None and prev[0] == "s" and prev[1] == it[1]:
+                    return False
                 # the same mid-row code twice in a row reads as one doubled code (the decoder ignores the copy), so in
                 # a stream sent single it does not stand for two cells
                 if not dbl and it[0] == "mid" and prev is not None and prev == it:
@@ -452,9 +469,18 @@ def rollup_rows(rng, lines, rows, frame, df, doubled, paint, depth, ru_once, nro
             words += [CMD["CR"]] * (2 if doubled else 1)
             words += [pac(base_row, 0)] * (2 if doubled else 1)
         words += items_words(items, doubled)
+        second = None
+        if paint and rng.random() < 0.2:
+            # the same paint-on cue goes on on a row that is not the next one down: two captions with the same times
+            r2 = rng.choice([x for x in range(1, 16) if abs(x - r) >= 2])
+            second = "".join(rng.choice(SAFE_CHARS[:52]) for _ in range(rng.randint(2, 8)))
+            words += [pac(r2, 0)] * (2 if doubled else 1)
+            words += items_words([("c", ch) for ch in second], doubled)
         lines.append(timecode(frame, df) + "\t" + " ".join(words))
         lines.append("")
         rows.append({"text": text, "frame": frame, "words": len(words)})
+        if second is not None:
+            rows.append({"text": second, "frame": frame, "words": 0, "same_cue": True})
         frame += len(words) + rng.choice([10, 30, 60, 90])
     return frame
 
